@@ -38,6 +38,22 @@ PROPS = {
                         "the wrapped TcError is private: its kind is read from the Debug form (HasCycle / MissingTcEdge)",
                         "is_ancestor_of(a, a) is false for a present entity although documented 'same semantics as b in a' (counted, not failed: "
                         "the reflexive case is only checked for `in`)"],
+    "C05": {
+        "streams": [("c05", 4000, 250000)],
+        "definitional": False,
+        "rule": "expression texts from a grammar-level generator with minimal / full / redundant parenthesisation (depth <= 8), the exhaustive "
+                "operator x operator grid (43 operator templates x every child position x 43 children x naked/parenthesised/doubly parenthesised), "
+                "negative-literal and i64-boundary forms in every operand position, reserved words / non-identifiers as attribute names and record keys, "
+                "escape-heavy strings, entity ids, patterns and annotation values, ASTs built from arbitrary Unicode strings, policies/templates (all scope "
+                "forms, slots, annotations, 0-3 when/unless clauses) and policy sets of 5; each accepted text: print, reparse, eq_shape/==, evaluate on "
+                "random worlds, both printers (AST Display, EST Display) for policies, sets as multisets modulo ids; model lines: Parse_model(lex t) = "
+                "parse_impl t (accept and reject), Print_model e ~ lex(print_impl e), parse_impl(render(Print_model e)) = e via the driver sub-process, "
+                "unescape_model = to_unescaped_string / like-pattern; non-trivial = accepted expression with >= 3 sub-expressions or an accepted policy "
+                "(distinct by canonical AST) or a distinct raw literal",
+        "theorems": ["unescape_escape", "unescape_escape_pattern", "parse_print_partial"],
+        "assumptions": ["the harness tokenizer (token classes of grammar.lalrpop) is trusted",
+                        "escape_debug's Unicode tables are not modelled: the theorems quantify over an arbitrary mustEscape predicate",
+                        "the LALRPOP-generated tables are tied to the model parser by the (parse ...) correspondence lines, accepts and rejects"],
     },
     "C07": {
         "streams": [("c07", 6000, 600000)],
